@@ -121,8 +121,8 @@ def run_units(ctx, n):
             text = ('def e { %s splitters: uid if tier == 1 { return %s } else { return %s } }'
                     % ('salt: "%s"' % salt if salt is not None else "", groups, groups.replace('"g', '"h')))
             evs.append((ws, ExperimentEvaluator(text)))
-        for _ in range(6):
-            uid = rng.choice([rng.randrange(10 ** 9), "user_%d" % rng.randrange(10 ** 6)])
+        for uid in [rng.choice([rng.randrange(10 ** 9), "user_%d" % rng.randrange(10 ** 6)]) for _ in range(6)] + ["", 0, None, False, " ", "0"]:
+            # (falsy and empty ids are ids: with no salt and uid "" the key is the empty string, position md5("")[:8]/2^32)
             h = gen.published_position(salt, ["uid"], {"uid": uid})
             ctx.case(("unit", salt, str(uid), tuple(map(tuple, vectors))), True)
             for ws, ev in evs:
